@@ -367,6 +367,15 @@ def main(prop, spec):
         rc, hout = run(cmd, cwd=VERIF, timeout=spec.get("harness_timeout", 3000), env={"VERIF_REPO": REPO})
         if rc != 0:
             broken.append(("harness-run", "harness exited with %s:\n%s" % (rc, hout[-2000:])))
+            # a death `guarded` cannot catch (stack overflow, abort, kill on timeout): the harness leaves the
+            # input it was about to hand to the implementation in current_input.txt (report::crumb)
+            try:
+                crumb = open(os.path.join(workdir, "current_input.txt"), errors="replace").read()
+            except OSError:
+                crumb = ""
+            if crumb.strip():
+                how = "was killed after the time limit" if rc == 124 else ("died with signal %d" % -rc if rc < 0 else "exited with status %d" % rc)
+                violations.append(("the harness process %s while the implementation was working on this input (no value, no error: crash, stack overflow, abort or endless loop)" % how, crumb))
         else:
             report = json.load(open(os.path.join(workdir, "report.json")))
 
